@@ -69,6 +69,10 @@ type OSpec struct {
 }
 
 // PCase: one pair evaluation. Alias[i] = -1 fresh object, 0 = the receiver, k>0 = argument k-1.
+// Elem (optional): Elem[i] = e >= 0 makes scalar argument i a REFERENCE into the storage of the container
+// Alias[i] names (0 = the receiver, k>0 = argument k-1, which must precede i): owner.At(e) of a vector,
+// owner.At(e / cols, e % cols) of a matrix — r.VMULS(a, r.AT(e)); on a sparse owner At creates the entry
+// when it is absent (in both copies alike).  Args[i] then only documents the element's specification.
 type PCase struct {
 	Type  string  `json:"type"`
 	Kind  string  `json:"kind"`
@@ -77,6 +81,38 @@ type PCase struct {
 	Recv  OSpec   `json:"recv"`
 	Args  []OSpec `json:"args"`
 	Alias []int   `json:"alias"`
+	Elem  []int   `json:"elem,omitempty"`
+}
+
+// elemRef: is argument i a reference to an element of another object of the case
+func (c PCase) elemRef(i int) (owner int, e int, ok bool) {
+	if i < len(c.Elem) && c.Elem[i] >= 0 && i < len(c.Alias) && c.Alias[i] >= 0 && c.Alias[i] <= i {
+		return c.Alias[i], c.Elem[i], true
+	}
+	return 0, 0, false
+}
+
+// ownerSpec: the specification of object o (0 = the receiver, k>0 = argument k-1) with object aliasing resolved
+func (c PCase) ownerSpec(o int) OSpec {
+	for g := 0; g < 8 && o > 0; g++ {
+		if _, _, isElem := c.elemRef(o - 1); isElem || c.Alias[o-1] < 0 {
+			return c.Args[o-1]
+		}
+		o = c.Alias[o-1]
+	}
+	return c.Recv
+}
+
+// elemOf: owner.At(e) / owner.At(e / cols, e % cols): the library's own reference to the element
+func elemOf(owner interface{}, e int) interface{} {
+	switch x := owner.(type) {
+	case ad.Vector:
+		return x.At(e)
+	case ad.Matrix:
+		_, cols := x.Dims()
+		return x.At(e/cols, e%cols)
+	}
+	panic("elemOf: owner is neither a vector nor a matrix")
 }
 
 func setElem(s ad.Scalar, e ESpec, t string) {
@@ -570,7 +606,12 @@ func runCase(c PCase, conc bool) (res Result) {
 	recv := build(c.Type, c.Recv)
 	objs := make([]interface{}, len(c.Args))
 	for i, a := range c.Args {
+		owner, e, isElem := c.elemRef(i)
 		switch {
+		case isElem && owner == 0:
+			objs[i] = elemOf(recv, e)
+		case isElem:
+			objs[i] = elemOf(objs[owner-1], e)
 		case c.Alias[i] == 0:
 			objs[i] = recv
 		case c.Alias[i] > 0:
